@@ -78,6 +78,19 @@ func runC17(c *core.Ctx) *core.Violation {
 	}
 	conf.Options.SourceRdbInput = []string{in}
 	conf.Options.TargetRdbOutput = out
+	staleOutput := t.Choose(4) == 3
+	if staleOutput {
+		// the output path already holds the (longer) result of an earlier decode run: it must be replaced, not overwritten in place
+		var sb strings.Builder
+		for i := 0; sb.Len() < len(file)*12+4096; i++ {
+			k := fmt.Sprintf("stale-key-of-an-earlier-run-%d", i)
+			fmt.Fprintf(&sb, "{\"db\":0,\"type\":\"string\",\"expireat\":0,\"key\":\"%s\",\"key64\":\"%s\",\"value64\":\"%s\"}\n", k, b64([]byte(k)), b64([]byte("old")))
+		}
+		if err := os.WriteFile(out+".0", []byte(sb.String()), 0644); err != nil {
+			panic(err)
+		}
+		c.Probe("output_path_existed")
+	}
 	conf.Options.Parallel = 1 + t.Choose(8)
 	hasInf := false
 	for _, r := range recs {
@@ -89,7 +102,7 @@ func runC17(c *core.Ctx) *core.Violation {
 			}
 		}
 	}
-	c.Sample = map[string]interface{}{"rdb_version": version, "records": len(recs), "parallel": conf.Options.Parallel, "file_len": len(file), "has_infinite_score": hasInf, "chunked_hash": big}
+	c.Sample = map[string]interface{}{"rdb_version": version, "records": len(recs), "parallel": conf.Options.Parallel, "file_len": len(file), "has_infinite_score": hasInf, "chunked_hash": big, "output_path_existed": staleOutput}
 	cfg := simrt.Config{MaxSteps: 4000000, MaxSimTime: time.Hour, Trace: c.Trace}
 	if t.Choose(2) == 1 {
 		cfg.Sticky = 300 + t.Choose(650)
@@ -285,6 +298,6 @@ func init() {
 			"script bodies are printable (the aux line carries the raw text, not base64)",
 		},
 		RealVsStub: "real: run.CmdDecode (parser, N decoders, writer), rdb.DecodeDump, utils.NewRDBLoader, real input and output files; simulated: scheduling, clock, process exit",
-		ProbeNames: []string{"parallel_gt1", "lua_script_line"},
+		ProbeNames: []string{"parallel_gt1", "lua_script_line", "output_path_existed"},
 	})
 }
